@@ -21,7 +21,7 @@ let site_name = function
   | PFilterImpIndex -> "PFilterImpIndex" | PTxLocsIndex -> "PTxLocsIndex"
   | PTargetIdx -> "PTargetIdx" | PBindHistIndex -> "PBindHistIndex" | PBindHistTargetNil -> "PBindHistTargetNil"
   | PBindHistPrevIndex -> "PBindHistPrevIndex" | PTxTypeIndex -> "PTxTypeIndex" | PVinIndex -> "PVinIndex"
-  | PRewardTxOut -> "PRewardTxOut"
+  | PRewardTxOut -> "PRewardTxOut" | PCurEvictedNil -> "PCurEvictedNil"
 
 let show = function
   | Ok _ -> "ok"
@@ -34,6 +34,14 @@ let rec permutations = function
     List.concat (List.mapi (fun i x ->
       let rest = List.filteri (fun j _ -> j <> i) l in
       List.map (fun p -> x :: p) (permutations rest)) l)
+
+(* which switch setting the implementation under test corresponds to: the code as it stands ([current_code]) or,
+   for a worktree that carries the proposed repair of GetBindingHistoryDetail, C19_MODEL_FIXES=all_fixed *)
+let code_under_test =
+  match Sys.getenv_opt "C19_MODEL_FIXES" with
+  | Some "all_fixed" -> all_fixed
+  | Some "as_found" -> as_found
+  | _ -> current_code
 
 let () =
   iter_lines (fun line ->
@@ -144,7 +152,7 @@ let () =
             | Some (_, _, _, _, "1") -> Some true
             | _ -> None) } in
         let c = if cur then Some (Npos XH) else None in
-        let w = { cur = c; cur2 = c; cur3 = c; st = st; taskchan = tc } in
+        let evicted = ref false in
         (* the codec answers and the node-side facts of the second group (optional section "$") *)
         let addr_tab = ref [] and pay_tab = ref [] in
         let best = ref (z_of_int 0) and block = ref None and reward = ref None and rows = ref [] in
@@ -174,8 +182,10 @@ let () =
             let outs = nlist (fun () -> match next () with "-" -> None | "1" -> Some true | _ -> Some false) in
             let amt = nz () in let cb = nbool () in let ins = bins () in
             { br_mined = mined; br_vout = vout; br_same = same; br_tx = (if fetched then Some outs else None);
-              br_amount = amt; br_coinbase = cb; br_ins = ins })
+              br_amount = amt; br_coinbase = cb; br_ins = ins });
+          evicted := nbool ()
         end;
+        let w = { cur = c; cur2 = c; cur3 = c; st = st; taskchan = tc; evicted = !evicted } in
         let cd = {
           c_addr = (fun s -> match List.assoc_opt s !addr_tab with
                              | Some c -> c
@@ -189,7 +199,7 @@ let () =
         let outs = List.sort_uniq compare (List.map (fun r ->
           match r with
           | RGetRawTransaction _ when (match prologue trim_ascii cd r with Ok _ -> true | _ -> false) -> "ok"   (* the served transaction is not rendered here *)
-          | _ -> show (handle trim_ascii cd current_code e w r)) variants) in
+          | _ -> show (handle trim_ascii cd code_under_test e w r)) variants) in
         Printf.printf "R\t%s\t%s\n" id (String.concat "|" outs)
       with
       | Exit -> Printf.printf "R\t%s\tskip\n" id
